@@ -501,6 +501,36 @@ fn col_clone_from_into_empty() {
     check_clone_from(2, 0, false);
 }
 
+/// clone_from between tables whose columns have different capacities, followed by growth of the
+/// destination: the destination must keep its OWN capacity bookkeeping (C05: no write past the
+/// block, no release with a foreign size)
+#[kani::proof]
+#[kani::unwind(8)]
+fn col_clone_from_keeps_own_capacity() {
+    let mut alloc = entity::Allocator::<R>::new();
+    let mut src = arch(0b100);
+    let mut dst = arch(0b100);
+    let big_src: bool = kani::any();
+    // one side reserves a larger buffer
+    if big_src {
+        unsafe { src.reserve::<(T, entity::Null)>(4) };
+    } else {
+        unsafe { dst.reserve::<(T, entity::Null)>(4) };
+    }
+    unsafe { src.push(entity!(T::new(kani::any())), &mut alloc) };
+    unsafe { dst.push(entity!(T::new(kani::any())), &mut alloc) };
+    dst.clone_from(&src);
+    // grow the destination beyond the smaller of the two capacities
+    unsafe {
+        dst.push(entity!(T::new(1)), &mut alloc);
+        dst.push(entity!(T::new(2)), &mut alloc);
+    }
+    assert!(dst.len() == 3 && src.len() == 1);
+    drop(src);
+    drop(dst);
+    assert!(all_dead());
+}
+
 #[kani::proof]
 #[kani::unwind(6)]
 fn col_component_eq_is_pointwise() {
